@@ -53,9 +53,11 @@ def dump_grid(grid):
     Dump a single grid to its ZINC representation.
     """
     header = 'ver:%s' % dump_str(str(grid._version), version=grid._version)
+    # The grid content follows the rules of the nearest official version,
+    # which is what the grid itself and the parser apply to this label.
     if bool(grid.metadata):
-        header += ' ' + dump_meta(grid.metadata, version=grid._version)
-    columns = dump_columns(grid.column, version=grid._version)
+        header += ' ' + dump_meta(grid.metadata, version=grid.nearest_version)
+    columns = dump_columns(grid.column, version=grid.nearest_version)
     rows = dump_rows(grid)
     return '\n'.join([header, columns] + rows + [''])
 
@@ -93,7 +95,8 @@ def dump_rows(grid):
 
 
 def dump_row(grid, row):
-    return ','.join([dump_scalar(row.get(c), version=grid.version) for \
+    version = grid.nearest_version
+    return ','.join([dump_scalar(row.get(c), version=version) for \
                      c in list(grid.column.keys())])
 
 
